@@ -462,6 +462,10 @@ bool StepExtended(ScriptExecutionEnvironment& env, CScript::const_iterator& pc, 
             // shifting by a negative count or by the width of the type (or a negative value left) is undefined in C++
             if ((env.opcode == OP_LSHIFT || env.opcode == OP_RSHIFT) && (num2 < 0 || num2 > 62)) return set_error(serror, SCRIPT_ERR_UNKNOWN_ERROR);
             if (env.opcode == OP_LSHIFT && num1 < 0) return set_error(serror, SCRIPT_ERR_UNKNOWN_ERROR);
+            // results that do not fit 64 bits (possible with 5-byte operands) are signed overflow, also undefined
+            int64_t product;
+            if (env.opcode == OP_MUL && __builtin_mul_overflow(num1.GetInt64(), num2.GetInt64(), &product)) return set_error(serror, SCRIPT_ERR_UNKNOWN_ERROR);
+            if (env.opcode == OP_LSHIFT && num1.GetInt64() > (std::numeric_limits<int64_t>::max() >> num2.GetInt64())) return set_error(serror, SCRIPT_ERR_UNKNOWN_ERROR);
             switch (env.opcode) {
             case OP_MUL: num1 = num1 * num2; break;
             case OP_DIV: num1 = num1 / num2; break;
